@@ -46,15 +46,16 @@ theorem cumsum_step_eq (l t : Nat) (ls : List Nat) :
   simp only [cumsumFrom, cumsum_append, cumsum_total]
   congr 1 <;> omega
 
-/-- `volume_indices[filename] = range(cur, cur + num)`, `cur += num` is the step of `parseStep` -/
-theorem parse_step_eq {φ : Type} (filt : Option PySliceT) (st : Parsed φ) (f : φ) (n : Nat) :
+/-- `volume_indices[filename] = range(cur, cur + num)` (a `dict` assignment), `cur += num` is the step of
+`parseStep` -/
+theorem parse_step_eq {φ : Type} [DecidableEq φ] (filt : Option PySliceT) (st : Parsed φ) (f : φ) (n : Nat) :
     (parseStep filt st (f, some n)).vols =
-        st.vols ++ [(f, (parse_vol_start st.cur (numSlices filt n)).toNat,
-                        (parse_vol_stop st.cur (numSlices filt n)).toNat)] ∧
+        dictSet st.vols f ((parse_vol_start st.cur (numSlices filt n)).toNat,
+                           (parse_vol_stop st.cur (numSlices filt n)).toNat) ∧
     (parseStep filt st (f, some n)).cur = (parse_next_cur st.cur (numSlices filt n)).toNat := by
   simp only [parseStep, parse_vol_start, parse_vol_stop, parse_next_cur]
   constructor
-  · congr 3 <;> omega
+  · congr 2 <;> omega
   · omega
 
 theorem parse_table_ok : parseTable.all (·.2) = true := by decide
